@@ -947,7 +947,15 @@ pub fn generate(seed: u64, tier: Tier, p: &Profile) -> Scenario {
                 0 => plan.pre.push(Op::RemoveTtl),
                 1 => plan.pre.push(Op::RemoveStart),
                 2 => plan.pre.push(Op::RemoveAux),
-                3 => plan.pre_tail.push(Op::SetCertsLegacy),
+                3 => {
+                    if g.r.chance(1, 2) && !g.native_ids.is_empty() {
+                        // the old setter is handed one certificate it must refuse (script credential): nothing may change
+                        let s = g.native_ids[0];
+                        plan.pre_tail.push(Op::SetCertsLegacyWith(CertSpec::StakeDeleg(Cred::Script(s), g.kid())));
+                    } else {
+                        plan.pre_tail.push(Op::SetCertsLegacy);
+                    }
+                }
                 4 => plan.pre_tail.push(Op::SetWithdrawalsLegacy),
                 5 | 6 => {
                     let s = *g.r.pick(&g.native_ids.clone());
